@@ -299,7 +299,7 @@ fn main() {
             let mut res = run_batch(&cfg, plan.n, plan.scenario, false);
             let mut extra = plan.extra;
             // C15: the determinism proof is part of the property's oracle
-            if prop == "C15" && res.stats.found.is_empty() {
+            if prop == "C15" && res.stats.found.is_empty() && driver::build_profile() != "plain" {
                 let n = match cfg.tier {
                     Tier::Quick => 2_000u64,
                     Tier::Thorough => 100_000,
